@@ -1,9 +1,601 @@
 /-
-  Gostatix.Model.Redis — Redis-level models (filled in below): the store, the commands and Lua
-  scripts the Redis-backed variants issue, key naming.
+  Gostatix.Model.Redis — Redis-level models of the Redis-backed variants.
+
+  * the store: a Redis database as a map from key to value (`Val`: string of bytes, list, hash,
+    sorted set), with `get`/`set`/`del`;
+  * key naming: the handle of every structure (parameters + the 16-letter random base keys made by
+    `util.GenerateRandomString(16)`) and the exact Redis keys it touches (`keysOf`), transcribing
+    the Go string concatenations;
+  * `Op`/`Script`: an operation is a function `Store → Store × result`; a Lua script is an
+    operation that may abort (`none`) *keeping the writes done so far* (Redis does not roll back);
+  * the Redis commands used by the library (`LINDEX`, `LSET`, `LRANGE`, `RPUSH`, `LPUSH`, `DEL`,
+    `HSET`, `HGETALL`, `SET`, `SETBIT`, `GETBIT`) on that store;
+  * the Lua scripts / pipelines of count_min_sketch_redis.go, hyperloglog_redis.go,
+    bitset_redis.go transcribed command by command;
+  * the constructors' metadata `HSET` (`create…`) and the `New…FromKey` re-attachment (`attach…`).
+
+  Numbers are stored in Redis as decimal strings: `decimal`/`parseDecimal`.
+  Modelling assumptions (tie-checked at run time by the harness, not proved):
+    - Lua `tonumber` is modelled by `parseDecimal` (plain decimal digits); every value the
+      library itself writes is of that form.  Lua numbers are float64, so the model is exact
+      for counters below 2^53.
+    - `unpack` of a Lua table is modelled for any length (real Lua refuses ≥ ~8000 elements).
+  Core Lean only (linked into the driver executable).
 -/
 import Gostatix.Model.Basic
+import Gostatix.Model.Bloom
+import Gostatix.Model.CMS
+import Gostatix.Model.HLL
 namespace Gostatix.Redis
+
+/-! ## decimal strings -/
+
+/-- `strconv.FormatUint(n, 10)` / go-redis' argument encoding of an unsigned integer /
+    Lua's `tostring` of a non-negative integer-valued number. -/
+def decimal (n : Nat) : String := n.repr
+
+/-- a non-empty string of ASCII digits read in base 10; anything else is rejected. -/
+def parseDecimal (s : String) : Option Nat :=
+  let cs := s.toList
+  if cs ≠ [] ∧ cs.all Char.isDigit = true then some (Nat.ofDigitChars 10 cs 0) else none
+
+/-- `n, _ := strconv.Atoi(s)` with the error dropped: 0 for anything that is not a number,
+    the largest `int` (64-bit) on a range error.
+    (Signs are not modelled: the library never writes one.) -/
+def atoi (s : String) : Nat :=
+  match parseDecimal s with
+  | some n => min n (2 ^ 63 - 1)
+  | none => 0
+
+/-- `n, _ := strconv.ParseUint(s, 10, 32)`: 0 on a syntax error, `2^32 - 1` on a range error. -/
+def parseUint32 (s : String) : Nat :=
+  match parseDecimal s with
+  | some n => min n (2 ^ 32 - 1)
+  | none => 0
+
+/-! ## the store -/
+
+inductive Val where
+  | str (bytes : List UInt8)
+  | list (l : List String)
+  | hash (h : List (String × String))
+  | zset (z : List (String × Nat))
+  deriving Repr, DecidableEq
+
+/-- a Redis database: key ↦ value (absent = `none`). -/
+abbrev Store := String → Option Val
+
+namespace Store
+def empty : Store := fun _ => none
+def get (s : Store) (k : String) : Option Val := s k
+def set (s : Store) (k : String) (v : Val) : Store := fun k' => if k' = k then some v else s k'
+def del (s : Store) (k : String) : Store := fun k' => if k' = k then none else s k'
+end Store
+
+/-! ## handles and key naming -/
+
+/-- a key produced by `util.GenerateRandomString(16)`: 16 ASCII letters. -/
+def IsBase (s : String) : Prop := s.length = 16 ∧ ∀ c ∈ s.toList, c.isAlpha = true
+
+instance (s : String) : Decidable (IsBase s) := by unfold IsBase; exact inferInstance
+
+structure BloomHandle where
+  size : Nat
+  k : Nat
+  bitsetKey : String
+  metadataKey : String
+  deriving Repr, DecidableEq
+
+structure CuckooHandle where
+  n : Nat
+  bsize : Nat
+  fpl : Nat
+  retries : Nat
+  key : String
+  metadataKey : String
+  deriving Repr, DecidableEq
+
+structure CMSHandle where
+  rows : Nat
+  cols : Nat
+  key : String
+  metadataKey : String
+  deriving Repr, DecidableEq
+
+structure HLLHandle where
+  m : Nat
+  key : String
+  metadataKey : String
+  deriving Repr, DecidableEq
+
+/-- `errorRate`/`accuracy` are kept as the opaque strings go-redis writes for the two floats. -/
+structure TopKHandle where
+  k : Nat
+  errorRate : String
+  accuracy : String
+  heapKey : String
+  metadataKey : String
+  sketch : CMSHandle
+  deriving Repr, DecidableEq
+
+/-- the shapes of Redis keys the library builds from a base key. -/
+inductive KeyD where
+  | base (b : String)                 -- the base key itself
+  | row (b : String) (r : Nat)        -- count-min sketch row list
+  | bucket (b : String) (i : Nat)     -- cuckoo bucket list
+  | blen (b : String) (i : Nat)       -- cuckoo bucket length counter
+  deriving Repr, DecidableEq
+
+namespace KeyD
+/-- the Go concatenations: `cms.key .. tostring(i-1)` (Lua, no separator),
+    `"cuckoo_" + key + "_bucket_" + strconv.FormatUint(i, 10)`, `bucket.key + "_len"`. -/
+def render : KeyD → String
+  | base b => b
+  | row b r => b ++ decimal r
+  | bucket b i => "cuckoo_" ++ b ++ "_bucket_" ++ decimal i
+  | blen b i => "cuckoo_" ++ b ++ "_bucket_" ++ decimal i ++ "_len"
+
+def baseOf : KeyD → String
+  | base b => b
+  | row b _ => b
+  | bucket b _ => b
+  | blen b _ => b
+end KeyD
+
+def cmsRowKey (key : String) (r : Nat) : String := key ++ decimal r
+def cuckooBucketKey (key : String) (i : Nat) : String := "cuckoo_" ++ key ++ "_bucket_" ++ decimal i
+def cuckooLenKey (key : String) (i : Nat) : String := cuckooBucketKey key i ++ "_len"
+
+namespace BloomHandle
+def bases (h : BloomHandle) : List String := [h.bitsetKey, h.metadataKey]
+def descr (h : BloomHandle) : List KeyD := [.base h.bitsetKey, .base h.metadataKey]
+def keysOf (h : BloomHandle) : List String := h.descr.map KeyD.render
+end BloomHandle
+
+namespace CuckooHandle
+def bases (h : CuckooHandle) : List String := [h.key, h.metadataKey]
+def descr (h : CuckooHandle) : List KeyD :=
+  [.base h.key, .base h.metadataKey] ++ ((List.range h.n).map (KeyD.bucket h.key)
+    ++ (List.range h.n).map (KeyD.blen h.key))
+def keysOf (h : CuckooHandle) : List String := h.descr.map KeyD.render
+end CuckooHandle
+
+namespace CMSHandle
+def bases (h : CMSHandle) : List String := [h.key, h.metadataKey]
+/-- NB the sketch's `key` itself is never a Redis key: only `key ++ decimal r`. -/
+def descr (h : CMSHandle) : List KeyD := .base h.metadataKey :: (List.range h.rows).map (KeyD.row h.key)
+def keysOf (h : CMSHandle) : List String := h.descr.map KeyD.render
+end CMSHandle
+
+namespace HLLHandle
+def bases (h : HLLHandle) : List String := [h.key, h.metadataKey]
+def descr (h : HLLHandle) : List KeyD := [.base h.key, .base h.metadataKey]
+def keysOf (h : HLLHandle) : List String := h.descr.map KeyD.render
+end HLLHandle
+
+namespace TopKHandle
+def bases (h : TopKHandle) : List String := [h.heapKey, h.metadataKey] ++ h.sketch.bases
+def descr (h : TopKHandle) : List KeyD := [.base h.heapKey, .base h.metadataKey] ++ h.sketch.descr
+def keysOf (h : TopKHandle) : List String := h.descr.map KeyD.render
+end TopKHandle
+
+/-- a handle of any kind. -/
+inductive Handle where
+  | bloom (h : BloomHandle)
+  | cuckoo (h : CuckooHandle)
+  | cms (h : CMSHandle)
+  | hll (h : HLLHandle)
+  | topk (h : TopKHandle)
+  deriving Repr, DecidableEq
+
+namespace Handle
+def bases : Handle → List String
+  | bloom h => h.bases | cuckoo h => h.bases | cms h => h.bases | hll h => h.bases | topk h => h.bases
+def descr : Handle → List KeyD
+  | bloom h => h.descr | cuckoo h => h.descr | cms h => h.descr | hll h => h.descr | topk h => h.descr
+def keysOf (h : Handle) : List String := h.descr.map KeyD.render
+end Handle
+
+/-! ## operations and scripts -/
+
+/-- an operation on the database returning a result. -/
+abbrev Op (ρ : Type) := Store → Store × ρ
+
+/-- a Lua script / command: may abort with an error (`none`); the writes done before the error
+    stay in the store. -/
+abbrev Script (α : Type) := Op (Option α)
+
+namespace Script
+def pure {α} (a : α) : Script α := fun s => (s, some a)
+def fail {α} : Script α := fun s => (s, none)
+def bind {α β} (m : Script α) (f : α → Script β) : Script β := fun s =>
+  match m s with
+  | (s', some a) => f a s'
+  | (s', none) => (s', none)
+/-- `redis.pcall`: an error of the command is swallowed. -/
+def try_ {α} (m : Script α) : Script (Option α) := fun s =>
+  match m s with
+  | (s', r) => (s', some r)
+end Script
+
+infixl:55 " >>=ₛ " => Script.bind
+
+/-! ### Redis commands -/
+
+def cmdDEL (k : String) : Script Unit := fun s => (s.del k, some ())
+
+def cmdLINDEX (k : String) (i : Nat) : Script (Option String) := fun s =>
+  match s k with
+  | none => (s, some none)
+  | some (.list l) => (s, some l[i]?)
+  | some _ => (s, none)
+
+def cmdLSET (k : String) (i : Nat) (v : String) : Script Unit := fun s =>
+  match s k with
+  | some (.list l) => if i < l.length then (s.set k (.list (l.set i v)), some ()) else (s, none)
+  | _ => (s, none)
+
+/-- `LRANGE k 0 -1` -/
+def cmdLRANGE (k : String) : Script (List String) := fun s =>
+  match s k with
+  | none => (s, some [])
+  | some (.list l) => (s, some l)
+  | some _ => (s, none)
+
+def cmdRPUSH (k : String) (vs : List String) : Script Unit := fun s =>
+  if vs = [] then (s, none) else
+  match s k with
+  | none => (s.set k (.list vs), some ())
+  | some (.list l) => (s.set k (.list (l ++ vs)), some ())
+  | some _ => (s, none)
+
+def cmdLPUSH (k : String) (vs : List String) : Script Unit := fun s =>
+  if vs = [] then (s, none) else
+  match s k with
+  | none => (s.set k (.list vs.reverse), some ())
+  | some (.list l) => (s.set k (.list (vs.reverse ++ l)), some ())
+  | some _ => (s, none)
+
+/-- set field `f` of an association list, keeping the position of an existing field. -/
+def hashSet : List (String × String) → String → String → List (String × String)
+  | [], f, v => [(f, v)]
+  | (f', v') :: h, f, v => if f' = f then (f, v) :: h else (f', v') :: hashSet h f v
+
+def hashGet : List (String × String) → String → Option String
+  | [], _ => none
+  | (f', v') :: h, f => if f' = f then some v' else hashGet h f
+
+def hashSetAll (h : List (String × String)) (fvs : List (String × String)) : List (String × String) :=
+  fvs.foldl (fun h fv => hashSet h fv.1 fv.2) h
+
+def cmdHSET (k : String) (fvs : List (String × String)) : Script Unit := fun s =>
+  match s k with
+  | none => (s.set k (.hash (hashSetAll [] fvs)), some ())
+  | some (.hash h) => (s.set k (.hash (hashSetAll h fvs)), some ())
+  | some _ => (s, none)
+
+def cmdHGETALL (k : String) : Script (List (String × String)) := fun s =>
+  match s k with
+  | none => (s, some [])
+  | some (.hash h) => (s, some h)
+  | some _ => (s, none)
+
+def cmdSET (k : String) (bytes : List UInt8) : Script Unit := fun s => (s.set k (.str bytes), some ())
+
+/-- bit `n` of a Redis string: byte `n / 8`, bit `7 - n % 8` (most significant bit first). -/
+def getBit (bytes : List UInt8) (n : Nat) : Bool := (bytes.getD (n / 8) 0).toNat.testBit (7 - n % 8)
+
+def setBitByte (b : UInt8) (j : Nat) : UInt8 := UInt8.ofNat (b.toNat ||| 2 ^ (7 - j))
+
+/-- `SETBIT … n 1`: the string is zero-padded up to byte `n / 8` when too short. -/
+def setBit (bytes : List UInt8) (n : Nat) : List UInt8 :=
+  let padded := bytes ++ List.replicate (n / 8 + 1 - bytes.length) 0
+  modAt padded (n / 8) (fun b => setBitByte b (n % 8))
+
+def cmdGETBIT (k : String) (n : Nat) : Script Bool := fun s =>
+  match s k with
+  | none => (s, some false)
+  | some (.str b) => (s, some (getBit b n))
+  | some _ => (s, none)
+
+def cmdSETBIT (k : String) (n : Nat) : Script Unit := fun s =>
+  match s k with
+  | none => (s.set k (.str (setBit [] n)), some ())
+  | some (.str b) => (s.set k (.str (setBit b n)), some ())
+  | some _ => (s, none)
+
+/-- Lua `tonumber(v)` followed by arithmetic/comparison: `nil` (absent or unparsable) raises. -/
+def luaNumber (v : Option String) : Script Nat := fun s =>
+  match v with
+  | some x => (match parseDecimal x with | some n => (s, some n) | none => (s, none))
+  | none => (s, none)
+
+/-! ## Count-Min Sketch (count_min_sketch_redis.go) -/
+
+/-- `initMatrix`: per row `DEL rowKey; LPUSH rowKey 0 … 0` (`columns` zeros). -/
+def cmsInitLoop (key : String) (cols : Nat) : Nat → Nat → Script Unit
+  | _, 0 => Script.pure ()
+  | r, n + 1 =>
+    cmdDEL (cmsRowKey key r) >>=ₛ fun _ =>
+    cmdLPUSH (cmsRowKey key r) (List.replicate cols (decimal 0)) >>=ₛ fun _ =>
+    cmsInitLoop key cols (r + 1) n
+
+def cmsInit (h : CMSHandle) : Script Unit := cmsInitLoop h.key h.cols 0 h.rows
+
+/-- `Update` script: for the `r`-th position `c`: `LINDEX row c`, add, `pcall LSET row c val`. -/
+def cmsUpdateLoop (key : String) (count : Nat) : Nat → List Nat → Script Unit
+  | _, [] => Script.pure ()
+  | r, c :: cs =>
+    cmdLINDEX (cmsRowKey key r) c >>=ₛ fun v =>
+    luaNumber v >>=ₛ fun n =>
+    Script.try_ (cmdLSET (cmsRowKey key r) c (decimal (n + count))) >>=ₛ fun _ =>
+    cmsUpdateLoop key count (r + 1) cs
+
+/-- `Update(data, count)` with `pos = getPositions(data)` (one column per row). -/
+def cmsUpdate (h : CMSHandle) (pos : List Nat) (count : Nat) : Script Unit :=
+  cmsUpdateLoop h.key count 0 pos
+
+/-- `Count` script: `if count < min or tonumber(KEYS[i]) == 0 then min = count end`. -/
+def cmsCountLoop (key : String) : Nat → List Nat → Nat → Script Nat
+  | _, [], mn => Script.pure mn
+  | r, c :: cs, mn =>
+    cmdLINDEX (cmsRowKey key r) c >>=ₛ fun v =>
+    luaNumber v >>=ₛ fun n =>
+    cmsCountLoop key (r + 1) cs (if n < mn ∨ r = 0 then n else mn)
+
+def cmsCount (h : CMSHandle) (pos : List Nat) : Script Nat := cmsCountLoop h.key 0 pos 0
+
+/-- `vals3[j] = tonumber(vals1[j]) + tonumber(vals2[j])` for `j = 1 … columns`. -/
+def cmsAddVals : Nat → List String → List String → Script (List String)
+  | 0, _, _ => Script.pure []
+  | n + 1, l1, l2 =>
+    luaNumber l1.head? >>=ₛ fun x =>
+    luaNumber l2.head? >>=ₛ fun y =>
+    cmsAddVals n l1.tail l2.tail >>=ₛ fun rest =>
+    Script.pure (decimal (x + y) :: rest)
+
+/-- `mergeMatrix` script, rows `r … r + n - 1`. -/
+def cmsMergeLoop (key1 key2 : String) (cols : Nat) : Nat → Nat → Script Unit
+  | _, 0 => Script.pure ()
+  | r, n + 1 =>
+    cmdLRANGE (cmsRowKey key1 r) >>=ₛ fun vals1 =>
+    cmdLRANGE (cmsRowKey key2 r) >>=ₛ fun vals2 =>
+    cmsAddVals cols vals1 vals2 >>=ₛ fun vals3 =>
+    cmdDEL (cmsRowKey key1 r) >>=ₛ fun _ =>
+    cmdRPUSH (cmsRowKey key1 r) vals3 >>=ₛ fun _ =>
+    cmsMergeLoop key1 key2 cols (r + 1) n
+
+/-- `Merge`: Go-side dimension checks (rows, then columns), then the script. -/
+def cmsMerge (h1 h2 : CMSHandle) : Script Unit :=
+  if h1.rows ≠ h2.rows then Script.fail
+  else if h1.cols ≠ h2.cols then Script.fail
+  else cmsMergeLoop h1.key h2.key h1.cols 0 h1.rows
+
+/-- a row list read back as numbers: exactly `cols` decimal entries. -/
+def optAll {α} : List (Option α) → Option (List α)
+  | [] => some []
+  | none :: _ => none
+  | some a :: l => (optAll l).map (a :: ·)
+
+def readNums (l : List String) : Option (List Nat) := optAll (l.map parseDecimal)
+
+def cmsReadRow (s : Store) (key : String) (cols : Nat) (r : Nat) : Option (List Nat) :=
+  match s (cmsRowKey key r) with
+  | some (.list l) => if l.length = cols then readNums l else none
+  | _ => none
+
+/-- the in-memory sketch a store represents under a handle. -/
+def absCMS (s : Store) (h : CMSHandle) : Option CMS :=
+  (optAll ((List.range h.rows).map (cmsReadRow s h.key h.cols))).map
+    fun m => { rows := h.rows, cols := h.cols, m := m }
+
+/-! ## HyperLogLog (hyperloglog_redis.go) -/
+
+/-- `initRegisters`: `for i=1, size/2` builds `⌊m/2⌋` zeros, pushed twice (no `DEL`). -/
+def hllInit (h : HLLHandle) : Script Unit :=
+  cmdLPUSH h.key (List.replicate (h.m / 2) (decimal 0)) >>=ₛ fun _ =>
+  cmdLPUSH h.key (List.replicate (h.m / 2) (decimal 0))
+
+/-- `updateRegisters` script. -/
+def hllUpdate (h : HLLHandle) (idx val : Nat) : Script Unit :=
+  cmdLINDEX h.key idx >>=ₛ fun count =>
+  luaNumber count >>=ₛ fun old =>
+  cmdLSET h.key idx (if val > old then decimal val else count.getD "")
+
+/-- the merge loop `if tonumber(vals1[i]) < tonumber(vals2[i]) then vals1[i] = vals2[i] end`
+    for `i = 1 … size`; elements of `vals1` beyond `size` are kept. -/
+def hllMergeVals : Nat → List String → List String → Script (List String)
+  | 0, l1, _ => Script.pure l1
+  | n + 1, l1, l2 =>
+    luaNumber l1.head? >>=ₛ fun x =>
+    luaNumber l2.head? >>=ₛ fun y =>
+    hllMergeVals n l1.tail l2.tail >>=ₛ fun rest =>
+    Script.pure ((if x < y then l2.head?.getD "" else l1.head?.getD "") :: rest)
+
+/-- `mergeRegisters` script (after the fix: `DEL` then `RPUSH`); the `LRANGE`s are `pcall`ed, an
+    error table then behaves as an empty table and the loop raises. -/
+def hllMergeScript (key1 key2 : String) (size : Nat) : Script Unit :=
+  Script.try_ (cmdLRANGE key1) >>=ₛ fun v1 =>
+  Script.try_ (cmdLRANGE key2) >>=ₛ fun v2 =>
+  hllMergeVals size (v1.getD []) (v2.getD []) >>=ₛ fun vals =>
+  Script.try_ (cmdDEL key1) >>=ₛ fun _ =>
+  Script.try_ (cmdRPUSH key1 vals) >>=ₛ fun _ =>
+  Script.pure ()
+
+def hllMerge (h g : HLLHandle) : Script Unit :=
+  if h.m ≠ g.m then Script.fail else hllMergeScript h.key g.key h.m
+
+/-- compare loop `if tonumber(vals1[i]) ~= tonumber(vals2[i]) then return false end`
+    (`nil ~= nil` is false: two missing/unparsable entries compare equal). -/
+def hllCompareVals : Nat → List String → List String → Bool
+  | 0, _, _ => true
+  | n + 1, l1, l2 =>
+    if (l1.head?.bind parseDecimal) ≠ (l2.head?.bind parseDecimal) then false
+    else hllCompareVals n l1.tail l2.tail
+
+/-- `Equals`: `(false, nil)` for different register counts, else the script. -/
+def hllEquals (h g : HLLHandle) : Script Bool :=
+  if h.m ≠ g.m then Script.pure false else
+  Script.try_ (cmdLRANGE h.key) >>=ₛ fun v1 =>
+  Script.try_ (cmdLRANGE g.key) >>=ₛ fun v2 =>
+  Script.pure (hllCompareVals h.m (v1.getD []) (v2.getD []))
+
+def absHLL (s : Store) (h : HLLHandle) : Option HLL :=
+  match s h.key with
+  | some (.list l) => if l.length = h.m then (readNums l).map fun regs => { m := h.m, regs := regs } else none
+  | _ => none
+
+/-! ## Bloom filter (bitset_redis.go + bloom_filter.go) -/
+
+/-- `newBitSetRedis(size)`: `SET key <size zero BYTES>` (the Go code allocates `size` bytes for a
+    `size`-bit set, i.e. eight times what is needed). -/
+def bloomInit (h : BloomHandle) : Script Unit := cmdSET h.bitsetKey (List.replicate h.size 0)
+
+/-- `insertMulti`: pipelined `SETBIT key idx 1`. -/
+def bloomInsertLoop (key : String) : List Nat → Script Unit
+  | [] => Script.pure ()
+  | p :: ps => cmdSETBIT key p >>=ₛ fun _ => bloomInsertLoop key ps
+
+/-- `Insert` for the probe list `ps` (the Go code ignores the pipeline's error). -/
+def bloomInsert (h : BloomHandle) (ps : List Nat) : Script Unit := bloomInsertLoop h.bitsetKey ps
+
+/-- `Lookup`: `GETBIT` per probe, stop at the first 0 (`if ok, _ := has(..); !ok {return false}`:
+    an error also reads as `false`). -/
+def bloomLookupLoop (key : String) : List Nat → Script Bool
+  | [] => Script.pure true
+  | p :: ps => Script.try_ (cmdGETBIT key p) >>=ₛ fun b =>
+      if b.getD false then bloomLookupLoop key ps else Script.pure false
+
+def bloomLookup (h : BloomHandle) (ps : List Nat) : Script Bool := bloomLookupLoop h.bitsetKey ps
+
+/-- all bits of a byte string, in `GETBIT` order. -/
+def bitsOf (bytes : List UInt8) : List Bool := (List.range (8 * bytes.length)).map (getBit bytes)
+
+/-- the in-memory filter a store represents: the first `size` bits of the string. -/
+def absBloom (s : Store) (h : BloomHandle) : Option Bloom :=
+  match s h.bitsetKey with
+  | some (.str b) =>
+    if h.size ≤ 8 * b.length then some { size := h.size, k := h.k, bits := (bitsOf b).take h.size }
+    else none
+  | _ => none
+
+/-! ## metadata: constructors' `HSET` and `New…FromKey` -/
+
+/-- `NewRedisBloomFilterWithParameters` (after fix fa61ac6): writes `util.Max(size, 1)` and
+    `util.Max(numHashes, 1)` — the values the returned filter uses (`NewBloomFilterWithBitSet`
+    clamps both to at least 1) — and the bitset key. -/
+def bloomCreateRaw (size numHashes : Nat) (bitsetKey metadataKey : String) : Script BloomHandle :=
+  cmdHSET metadataKey [("size", decimal (max size 1)), ("numHashes", decimal (max numHashes 1)),
+      ("bitsetKey", bitsetKey)]
+    >>=ₛ fun _ => Script.pure
+      { size := max size 1, k := max numHashes 1, bitsetKey := bitsetKey, metadataKey := metadataKey }
+
+/-- the metadata `HSET` for a given handle (both Redis constructors write the clamped values the filter uses). -/
+def bloomCreate (h : BloomHandle) : Script Unit :=
+  cmdHSET h.metadataKey [("size", decimal h.size), ("numHashes", decimal h.k), ("bitsetKey", h.bitsetKey)]
+
+def field (vals : List (String × String)) (f : String) : String := (hashGet vals f).getD ""
+
+/-- `NewRedisBloomFilterFromKey` (an absent key gives an empty map, every field reads `""`/0). -/
+def bloomAttach (s : Store) (metadataKey : String) : Option BloomHandle :=
+  match (cmdHGETALL metadataKey s).2 with
+  | none => none
+  | some vals => some
+      { size := atoi (field vals "size"), k := atoi (field vals "numHashes"),
+        bitsetKey := field vals "bitsetKey", metadataKey := metadataKey }
+
+/-- `setMetadata(length)` of the cuckoo filter. -/
+def cuckooSetMetadata (h : CuckooHandle) (length : Nat) : Script Unit :=
+  cmdHSET h.metadataKey
+    [("size", decimal h.n), ("bucketSize", decimal h.bsize), ("fingerPrintLength", decimal h.fpl),
+     ("retries", decimal h.retries), ("key", h.key), ("length", decimal length)]
+
+def cuckooCreate (h : CuckooHandle) : Script Unit := cuckooSetMetadata h 0
+
+/-- `NewCuckooFilterRedisFromKey`; the bucket handles are re-created from `(key, size, bucketSize)`
+    by `localInitBuckets`, i.e. they are `cuckooBucketKey key i` for `i < size` again. -/
+def cuckooAttach (s : Store) (metadataKey : String) : Option CuckooHandle :=
+  match (cmdHGETALL metadataKey s).2 with
+  | none => none
+  | some vals => some
+      { n := atoi (field vals "size"), bsize := atoi (field vals "bucketSize"),
+        fpl := atoi (field vals "fingerPrintLength"), retries := atoi (field vals "retries"),
+        key := field vals "key", metadataKey := metadataKey }
+
+def cmsCreate (h : CMSHandle) : Script Unit :=
+  cmdHSET h.metadataKey [("rows", decimal h.rows), ("columns", decimal h.cols), ("key", h.key)]
+
+/-- `NewCountMinSketchRedisFromKey`: error unless `rows > 0` and `columns > 0`. -/
+def cmsAttach (s : Store) (metadataKey : String) : Option CMSHandle :=
+  match (cmdHGETALL metadataKey s).2 with
+  | none => none
+  | some vals =>
+    let rows := atoi (field vals "rows")
+    let cols := atoi (field vals "columns")
+    if rows = 0 ∨ cols = 0 then none
+    else some { rows := rows, cols := cols, key := field vals "key", metadataKey := metadataKey }
+
+def hllCreate (h : HLLHandle) : Script Unit :=
+  cmdHSET h.metadataKey [("numRegisters", decimal h.m), ("key", h.key)]
+
+/-- `NewHyperLogLogRedisFromKey`: `makeAbstractHyperLogLog` panics on 0 and errors unless the
+    number of registers is a power of two (`m & (m-1) == 0`); `numBytesPerHash` and
+    `correctionBias` are functions of `m` only, so they are not part of the handle. -/
+def hllAttach (s : Store) (metadataKey : String) : Option HLLHandle :=
+  match (cmdHGETALL metadataKey s).2 with
+  | none => none
+  | some vals =>
+    let m := atoi (field vals "numRegisters")
+    if m = 0 ∨ m &&& (m - 1) ≠ 0 then none
+    else some { m := m, key := field vals "key", metadataKey := metadataKey }
+
+/-- `NewTopKRedis`: the nested sketch's metadata (by `NewCountMinSketchRedis`), then its own. -/
+def topkCreate (h : TopKHandle) : Script Unit :=
+  cmsCreate h.sketch >>=ₛ fun _ =>
+  cmdHSET h.metadataKey
+    [("k", decimal h.k), ("heapKey", h.heapKey), ("errorRate", h.errorRate),
+     ("accuracy", h.accuracy), ("sketchKey", h.sketch.metadataKey)]
+
+/-- `NewTopKRedisFromKey`: reads its own hash, then the sketch's through `sketchKey`.  (The Go
+    code drops the sketch's error and keeps a nil sketch; here that is `none`.) -/
+def topkAttach (s : Store) (metadataKey : String) : Option TopKHandle :=
+  match (cmdHGETALL metadataKey s).2 with
+  | none => none
+  | some vals =>
+    match cmsAttach s (field vals "sketchKey") with
+    | none => none
+    | some sk => some
+        { k := parseUint32 (field vals "k"), errorRate := field vals "errorRate",
+          accuracy := field vals "accuracy", heapKey := field vals "heapKey",
+          metadataKey := metadataKey, sketch := sk }
+
+/-! ## key sets from plain data (for the driver's text protocol) -/
+
+/-- `keysOf` of the handle of the given kind built from plain data; parameters that do not
+    influence the key set are filled with 0.  `none` for an unknown kind or a wrong number of
+    parameters / base keys.
+    * `"bloom"`  — params `[]`,      bases `[bitsetKey, metadataKey]`
+    * `"cuckoo"` — params `[n]`,     bases `[key, metadataKey]`
+    * `"cms"`    — params `[rows]`,  bases `[key, metadataKey]`
+    * `"hll"`    — params `[]`,      bases `[key, metadataKey]`
+    * `"topk"`   — params `[rows]` (of the sketch), bases `[heapKey, metadataKey, sketchKey, sketchMetadataKey]` -/
+def keysOfKind (kind : String) (params : List Nat) (bases : List String) : Option (List String) :=
+  match kind, params, bases with
+  | "bloom", [], [bk, mk] =>
+    some (BloomHandle.keysOf { size := 0, k := 0, bitsetKey := bk, metadataKey := mk })
+  | "cuckoo", [n], [key, mk] =>
+    some (CuckooHandle.keysOf { n := n, bsize := 0, fpl := 0, retries := 0, key := key, metadataKey := mk })
+  | "cms", [rows], [key, mk] =>
+    some (CMSHandle.keysOf { rows := rows, cols := 0, key := key, metadataKey := mk })
+  | "hll", [], [key, mk] =>
+    some (HLLHandle.keysOf { m := 0, key := key, metadataKey := mk })
+  | "topk", [rows], [hk, mk, sk, smk] =>
+    let sketch : CMSHandle := { rows := rows, cols := 0, key := sk, metadataKey := smk }
+    some (TopKHandle.keysOf
+      { k := 0, errorRate := "", accuracy := "", heapKey := hk, metadataKey := mk, sketch := sketch })
+  | _, _, _ => none
+
+/-! ## text protocol (filled in by the driver integration) -/
 
 def handle (_args : List String) : Except String String := throw "redis:unimplemented"
 
